@@ -1376,7 +1376,7 @@ def check_receiver(ctx, stream, world, case, path, before, shallow_before, trans
             miss_cls = _incomplete_class(push, depth, shallow_before, sender_shallow)
             if fetch_all:
                 # default determine_wants skips a ref whose tip object is already in the store
-                tips = {t for t in transferred if t in before}
+                tips = {t for t in set(transferred) | set(changed.values()) if t in before}
                 if tips and missing <= g.closure(tips, shallow=shallow_after):
                     miss_cls = "fetchall-tip-present-closure-missing"
             if proto2 and shallow_before and not depth and not push and after == before:
